@@ -106,6 +106,7 @@ type Machine struct {
 	embedsDone  map[*ssa.Package]bool
 	initSkipped map[*ssa.Package]bool
 	files       map[string]*memFile
+	uniqueTab   map[string]Ptr
 	fileOf      map[Ptr]*memFile
 	ufApps      map[string][]ufApp
 	curH        int
